@@ -137,3 +137,58 @@ func forceLegacy(t *rapid.T, c *Case) {
 	}
 	c.Load = layout
 }
+
+// pickQuery picks a start/end string: mostly from Q(keys), sometimes drawn.
+func pickQuery(t *rapid.T, qs []string, label string) Hex {
+	if len(qs) == 0 || rapid.IntRange(0, 9).Draw(t, label+"?") == 0 {
+		return Hex(rapid.SliceOfN(rapid.Byte(), 0, 6).Draw(t, label+"raw"))
+	}
+	return Hex(qs[pickU(t, label, len(qs))])
+}
+
+func genScans(t *rapid.T, c *Case, n int) {
+	qs := queries(c.keys(), c.Win, c.Extra, false)
+	cnt := rapid.IntRange(1, n).Draw(t, "nscans")
+	for i := 0; i < cnt; i++ {
+		sc := ScanSpec{
+			API:       []string{"from", "fromto", "iter"}[pickU(t, "api", 3)],
+			Start:     pickQuery(t, qs, "start"),
+			InclStart: rapid.Bool().Draw(t, "inclstart"),
+			WithValue: rapid.Bool().Draw(t, "withvalue"),
+			Stop:      rapid.SampledFrom([]int{-1, -1, -1, 0, 1, 2, 5}).Draw(t, "stop"),
+		}
+		if sc.API == "fromto" {
+			sc.End = pickQuery(t, qs, "end")
+			sc.InclEnd = rapid.Bool().Draw(t, "inclend")
+		}
+		c.Scans = append(c.Scans, sc)
+	}
+}
+
+func TestC04(t *testing.T) {
+	runProp(t, "C04", checkC04, func(t *rapid.T) *Case {
+		var c *Case
+		if pickU(t, "refusal?", 4) == 0 {
+			// refusal clause: any non-complete option struct
+			c = genTrieCase(t, trieGenOpt{})
+			if c.Opt.complete() {
+				c.Opt[3] = 1
+				c.Opt[pickU(t, "drop", 2)+1] = Tri(pickU(t, "dropto", 2))
+			}
+		} else {
+			c = genTrieCase(t, trieGenOpt{complete: true})
+			if pickU(t, "legacy?", 5) == 0 {
+				if c.spec().width == 0 {
+					c.Enc = "I32"
+				}
+				c.HasVals = true
+				c.Vals, c.VMode = genVals(t, len(c.Keys), c.Enc, false)
+				c.Load = []string{"0.5.10", "0.5.11"}[pickU(t, "layout", 2)]
+			}
+		}
+		genExtra(t, c)
+		genScans(t, c, 12)
+		return c
+	})
+}
+func TestReplayC04(t *testing.T) { runReplay(t, "C04", checkC04) }
